@@ -6,7 +6,7 @@ kinds: connects, max-count changes, full and incremental volume heartbeats, full
 heartbeats, disconnects, refresh rounds — the invariant `CountersOk` (every disk counter = recount of
 what is registered on the disk; node = disk; rack / data center / topology = sums over the connected
 servers) is preserved.  Incremental deletions need NO condition any more: `DeltaUpdateVolumes` was repaired in /repo
-(f55c35ee: a deletion message for a volume that is not registered is ignored; 4838d419: the remote flag is
+(bf7edee2: a deletion message for a volume that is not registered is ignored; fb6f0331: the remote flag is
 taken from the registered volume), the model mirrors the repaired code (`Core.delReg`), and the former
 hypothesis `DelsOk` (= the findings inc/volume-count and inc/remote-volume-count) is gone; the former
 failing histories are now proved exact below (`delete_unregistered_recount_exact`,
@@ -1023,7 +1023,7 @@ theorem ecfull_duplicate_entry_counts_twice :
 
 /-! ## the two repaired findings: the histories that used to break the recount are now exact
 
-Before f55c35ee / 4838d419 the model (like the code) gave `(st.cDisk 0 0).vol = -1` resp.
+Before bf7edee2 / fb6f0331 the model (like the code) gave `(st.cDisk 0 0).vol = -1` resp.
 `(st.cDisk 0 0).rem = 1` on these histories (corpus/C12/delete_unregistered.ops,
 corpus/C12/delete_remote_incremental.ops); the judge classes inc/volume-count and
 inc/remote-volume-count stay in the judge, so a regression of the code is reported. -/
@@ -1147,7 +1147,7 @@ theorem bridge_add_or_update :
 /-- the deletions of `DataNode.UpdateVolumes` / `DeltaUpdateVolumes` (`delVol`): -1 volume, -1 remote if remote;
     `DeltaUpdateVolumes` looks the volume of the (short) deletion message up among the registered volumes of the
     disk, skips the message when it is not found and asks the REGISTERED volume whether it is remote (`delReg`;
-    the repairs f55c35ee and 4838d419 — reverting either changes a text below) -/
+    the repairs bf7edee2 and fb6f0331 — reverting either changes a text below) -/
 theorem bridge_delete_volume :
     SwV.Gen.C12.upd_gone = "!ok" ∧ SwV.Gen.C12.upd_gone_vol = "deltaDiskUsage.volumeCount = -1" ∧
     SwV.Gen.C12.upd_gone_remote = "v.IsRemote()" ∧
